@@ -66,6 +66,15 @@ class StepClock:
             self.limit = None
             raise StepBudget()
 
+    def _cb_throw(self, code, *a):
+        # PY_THROW events cannot be disabled per location: never return DISABLE
+        ok = self._interesting.get(code)
+        if ok is None:
+            fn = code.co_filename
+            ok = self._interesting[code] = (fn == self.engine_file or fn == SCRIPT_FN)
+        if ok:
+            self.count += 1
+
     def install(self):
         m = sys.monitoring
         if m.get_tool(self.TOOL) is None:
@@ -73,7 +82,7 @@ class StepClock:
         ev = m.events
         m.register_callback(self.TOOL, ev.PY_START, self._cb)
         m.register_callback(self.TOOL, ev.PY_RESUME, self._cb)
-        m.register_callback(self.TOOL, ev.PY_THROW, self._cb)
+        m.register_callback(self.TOOL, ev.PY_THROW, self._cb_throw)
         self._events = ev.PY_START | ev.PY_RESUME | ev.PY_THROW
 
     def start(self, limit=None):
